@@ -5,6 +5,7 @@ from fractions import Fraction
 import numpy as np
 
 from .. import core, symbols
+from ..translate import spectral as tr_spectral
 
 ID = "C12"
 PROPS_FILE = "C12"
@@ -12,7 +13,14 @@ RULE = ("correspondence (exact rationals, L = 2 pi q): every element of the inje
         "injection model, N odd/even, every admissible injection_mode, several q; witness: KolmogorovFlowVorticity / KolmogorovFlowVelocity / GeneralVorticityConvectionStepper with injection "
         "started from rest vs the laminar solution of the documented forced equation (orders 1-4, several L incl. L != 2 pi, N, injection modes incl. modes above the dealiasing cutoff, scales, "
         "step counts); ForcedStepper with zero forcing = unforced stepper and with forcing f = unforced step of u + dt f. Non-trivial: non-zero forcing; distinct by input hash.")
+TRUSTED_EXTRA = ["harness/translate/spectral.py (the constructors of the two Kolmogorov nonlinear functions executed symbolically; contracts as for C04 plus jnp.sign = Z.sgn, jnp.imag, jnp.where / concatenate on complex arrays)"]
 ASSUMPTIONS = ["the injection is added after the (dealiased) convection term, so it is not subject to the dealiasing mask", "rfftn/irfftn of C04"]
+
+
+def translate(ctx):
+    """Gen/SpectralGen.v: gen_injection2d / gen_injection3d, the forcing arrays of the Kolmogorov nonlinear functions re-translated from the
+    source (tied to Nonlin/Injection.v by Tie/InjectionTie.v and the theorem C12_code_injection_is_model_injection)"""
+    tr_spectral.run()
 
 
 def _ex():
